@@ -28,7 +28,7 @@ var sortStrings = []string{"", "a", "b", "ab", "abc", "B", "é", "e", "z", "aa",
 
 func GenC17(t *rapid.T) *C17Case {
 	n := []int{1, 2, 3, 4, 5, 6, 7, 8, 9, 12, 13, 16, 17, 25, 32, 33, 40, 64, 65, 100, 129, 11, 12, 13}[drawIdx(t, 24, "n")]
-	c := &C17Case{Twice: drawBool(t, "twice"), Route: drawInt(t, 0, 7, "route")}
+	c := &C17Case{Twice: drawBool(t, "twice"), Route: drawInt(t, 0, numListRoutes-1, "route")}
 	if drawBool(t, "seq") {
 		for i, n := 0, drawInt(t, 1, 5, "nops"); i < n; i++ {
 			c.Ops = append(c.Ops, []string{"sort", "reverse"}[drawInt(t, 0, 1, "op")])
@@ -140,8 +140,8 @@ func CheckC17(c *C17Case, st *Stats) error {
 			}
 		}
 		n := len(elems)
-		l := listByRoute(shape, elems, c.Route%8, n)
-		st.Count(fmt.Sprintf("route.%d", c.Route%8))
+		l := listByRoute(shape, elems, c.Route%numListRoutes, n)
+		st.Count(fmt.Sprintf("route.%d", c.Route%numListRoutes))
 		if n == 0 {
 			return nil
 		}
